@@ -12,8 +12,8 @@ EXTENDS Integers, Sequences, FiniteSets
 RECURSIVE P2(_)
 P2(n) == IF n <= 0 THEN 1 ELSE 2 * P2(n - 1)
 \* word a of length la is a prefix of (or equal to) word b of length lb >= la
-IsPrefix(a, la, b, lb) == la <= lb /\ b \div P2(lb - la) = a
-Clash(a, la, b, lb) == IsPrefix(a, la, b, lb) \/ IsPrefix(b, lb, a, la)
+WordIsPrefix(a, la, b, lb) == la <= lb /\ b \div P2(lb - la) = a
+Clash(a, la, b, lb) == WordIsPrefix(a, la, b, lb) \/ WordIsPrefix(b, lb, a, la)
 
 \* assigned = sequence of [w, l] for the entries handled so far (l = 0: none)
 Free(assigned, v, L) == \A j \in 1..Len(assigned) : assigned[j].l = 0 \/ ~Clash(assigned[j].w, assigned[j].l, v, L)
